@@ -1,5 +1,5 @@
 """Which functions of /repo/src/arim are translated to Lean, with the types of their parameters (see py2lean.py)."""
-from py2lean import FuncSpec, K, D, I, N, B, L, A, F
+from py2lean import FuncSpec, K, D, I, N, B, L, A, F, M
 
 MODEL = "arim/model.py"
 
@@ -141,3 +141,13 @@ SPECS["C02"] += [
              bind={"lanczos_interpolation": ("(fun t x a => lanczos_interpolation o d t x a numsamples)", F([K, A(D, 1), N], D))},
              locals={"res_tmp": D}, skip=DAS_SKIP, cell=DAS_CELL),
 ]
+
+# ---- C17 (C16): rotation matrices
+SPECS["C17"] = [
+    FuncSpec(GEO, "rotation_matrix_x", "rotation_matrix_x", [("theta", K)]),
+    FuncSpec(GEO, "rotation_matrix_y", "rotation_matrix_y", [("theta", K)]),
+    FuncSpec(GEO, "rotation_matrix_z", "rotation_matrix_z", [("theta", K)]),
+    FuncSpec(GEO, "rotation_matrix_ypr", "rotation_matrix_ypr", [("yaw", K), ("pitch", K), ("roll", K)]),
+]
+IMPORTS["C17"] = ["ArimModel.Src", "ArimModel.Geometry"]
+USES["C16"] = ["C17"]
